@@ -860,6 +860,7 @@ func Run(r *fw.Run) {
 	keyBinding(r)
 	overlapPart(r, nil)
 	retentionPart(r)
+	nameSweep(r)
 	// many text lines that look like signature lines (they begin with an em dash and a space): limits on the
 	// number of signatures are about signature lines, not about the text
 	{
@@ -1016,6 +1017,77 @@ func Run(r *fw.Run) {
 		}
 	})
 	r.Sample(caseT{Kind: "mutation", Text: strconv.QuoteToASCII("a\n\n" + good1 + "\n"), Verifiers: []string{"k1"}, Mutation: "flip-low@0"})
+}
+
+// ---------------------------------------------------------------- key names
+
+// nameSweep: a key (server) name is valid exactly when it is not empty and has no plus sign and no Unicode
+// white space. Every rune of a boundary set is tried inside, at the start and at the end of a name: key
+// generation, NewSigner/NewVerifier, Sign and Open must all agree with that rule, and a valid name must make
+// the whole round trip.
+func nameSweep(r *fw.Run) {
+	l := fw.NewLocal()
+	defer r.Merge(l)
+	var runes []rune
+	// (from U+0020: a message must not contain other ASCII control characters anywhere, so a name with one
+	// can sign but never be opened; that is the message rule, not the name rule)
+	for c := rune(0x20); c < 0x180; c++ {
+		runes = append(runes, c)
+	}
+	runes = append(runes, 0x09, 0x0b, 0x0c, 0x0d, 0x1680, 0x2000, 0x2003, 0x2005, 0x200a, 0x200b, 0x2028, 0x2029, 0x202f, 0x205f, 0x3000, 0xfeff, 0x4e05, 0x0160, 0x212a, 0xfffd, 0x10000, 0x10ffff, 0x7ff, 0x800, 0xd7ff, 0xe000)
+	r.Bounds["key_name_runes"] = len(runes)
+	for _, c := range runes {
+		for _, name := range []string{"k" + string(c) + ".example", string(c) + "k.example", "k.example/" + string(c)} {
+			l.States++
+			l.Execs++
+			l.Transitions++
+			valid := name != "" && utf8.ValidString(name)
+			for _, x := range name {
+				if x == '+' || unicode.IsSpace(x) {
+					valid = false
+				}
+			}
+			skey, vkey, err := note.GenerateKey(&detRand{seed: "name-sweep"}, name)
+			if err != nil {
+				continue
+			}
+			rep := func(what string) {
+				r.Violation("name:"+strconv.QuoteToASCII(name)+":"+what, fmt.Sprintf("key name %s (valid by the documented rule: %v): %s", strconv.QuoteToASCII(name), valid, what), caseT{Kind: "name", Text: strconv.QuoteToASCII(name)})
+			}
+			sg, e1 := note.NewSigner(skey)
+			vf, e2 := note.NewVerifier(vkey)
+			if (e1 == nil) != valid || (e2 == nil) != valid {
+				rep(fmt.Sprintf("NewSigner err=%v, NewVerifier err=%v", e1, e2))
+				continue
+			}
+			if !valid {
+				// a hand-made signer with that name must be refused by Sign, and a message with such a line by Open
+				if _, err := note.Sign(&note.Note{Text: "t\n"}, fakeSigner{name, 7, []byte("0123456789")}); err == nil {
+					rep("Sign accepted a signer with this name")
+				}
+				if !strings.ContainsAny(name, "\n") {
+					msg := "t\n\n— " + name + " AAAAB3g=\n"
+					if _, err := note.Open([]byte(msg), note.VerifierList()); err == nil || !strings.Contains(err.Error(), "malformed") {
+						var une *note.UnverifiedNoteError
+						if errors.As(err, &une) || err == nil {
+							rep(fmt.Sprintf("Open took a signature line with this name for well-formed (err=%v)", err))
+						}
+					}
+				}
+				continue
+			}
+			l.Nontrivial++
+			m, err := note.Sign(&note.Note{Text: "t\n"}, sg)
+			if err != nil {
+				rep("Sign failed: " + err.Error())
+				continue
+			}
+			n, err := note.Open(m, note.VerifierList(vf))
+			if err != nil || len(n.Sigs) != 1 || n.Sigs[0].Name != name {
+				rep(fmt.Sprintf("a note signed with this key does not open: %v", err))
+			}
+		}
+	}
 }
 
 // ---------------------------------------------------------------- retention
@@ -1312,6 +1384,11 @@ func Replay(r *fw.Run, raw json.RawMessage) {
 		r.States.Add(1)
 		r.Sample(c)
 		overlapPart(r, &c)
+		return
+	}
+	if c.Kind == "name" {
+		r.Sample(c)
+		nameSweep(r)
 		return
 	}
 	if c.Kind == "retention" {
